@@ -7,7 +7,7 @@ import MxModel.Generated.Tables
     look <name> g=u:3,x:9 | p=x,y;a=2,10;r=y:7;c=foo | p=x;a=1;r=;c=
         levels INNERMOST FIRST, `a=-` for a level that is not called
         -> `exp=<res> mx=<res>`,  res = `val N` | `cells` | `unbound`
-    refval ty=<exact type> bases=<b1,b2> iface=0|1 valid=0|1 mod=0|1 io=0|1
+    refval ty=<exact type> bases=<b1,b2> iface=0|1 valid=0|1 mod=0|1 io=0|1 fin=0|1
         -> `path` | `none` | `literal` | `module` | `io` | `pickle`   (ParentTranslator.ref_value)
 -/
 namespace Driver.Export
@@ -56,7 +56,8 @@ def step (line : String) : String :=
   | "refval" :: rest =>
     let v : PyVal := { ty := field "ty=" rest, bases := names (field "bases=" rest),
                        iface := field "iface=" rest = "1", valid := field "valid=" rest = "1",
-                       sysmod := field "mod=" rest = "1", iospec := field "io=" rest = "1" }
+                       sysmod := field "mod=" rest = "1", iospec := field "io=" rest = "1",
+                       finite := field "fin=" rest ≠ "0" }
     showEmit (refValue Generated.exportLiteralTest Generated.exportLiteralTypes v Generated.exportRefValueOrder)
   | "look" :: n :: _ =>
     match line.splitOn " | " with
